@@ -116,7 +116,10 @@ Clear(s, l) == LET q == Fwd(s, l)
 
 (* cstl_dlist_foreach: the successor is read before the visit, so the callback *)
 (* may erase the visited element (er)                                           *)
-Cut(w, stop) == IF stop > 0 /\ stop <= Len(w) THEN [w |-> SubSeq(w, 1, stop), ret |-> 100 + stop]
+\* what the driver's visit function returns at its stop-th call: any non-zero value must stop the walk and
+\* come back unchanged, so the values vary in sign and size (engine.h e_stopval)
+StopVal(k) == CASE k % 3 = 1 -> 100 + k [] k % 3 = 2 -> 0 - (100 + k) [] OTHER -> IF k % 2 = 1 THEN 1 ELSE 0 - 1
+Cut(w, stop) == IF stop > 0 /\ stop <= Len(w) THEN [w |-> SubSeq(w, 1, stop), ret |-> StopVal(stop)]
                 ELSE [w |-> w, ret |-> 0]
 RECURSIVE DelAll(_, _, _)
 DelAll(s, l, w) == IF w = <<>> THEN s ELSE DelAll(Del(s, l, Head(w)), l, Tail(w))
